@@ -59,6 +59,43 @@ class WriterModel:
             return
         self.f_inner, self.f_le, self.f_written, self.f_cap = (
             self.f_inner[0], self.f_le[0], self.f_written[0], self.f_cap[0])
+        # derived constants: further fields the constructor computes from the capacity and the line ending only
+        # (`max_line = cap.checked_sub(ending.len())`): reads of such a field stand for the constructor's equation, written
+        # over the symbols C and E (sound as long as nobody stores to the field afterwards - M10 covers these fields too)
+        self.derived = {}
+        le_t = norm(self.ctor.get(self.f_le))
+
+        def sym(x):
+            x = norm(x)
+            if x == ('param', 2):
+                return ('sym', 'C')
+            if x[0] == 'call' and isinstance(x[1], str) and x[1].endswith('::len') and len(x[2]) == 1:
+                a_ = x[2][0]
+                # through borrows and the pointer plumbing of Box<[u8]> / Vec<u8> derefs
+                while a_[0] in ('ref', 'deref', 'cast', 'field', 'load', 'unsize', 'autoderef', 'conv'):
+                    a_ = a_[4] if a_[0] == 'cast' else a_[1]
+                le0 = le_t
+                while le0[0] in ('ref', 'deref', 'load', 'unsize', 'autoderef', 'conv'):
+                    le0 = le0[1]
+                if a_ == le0 or strip_views(x[2][0]) == strip_views(le_t):
+                    return ('sym', 'E')
+            if x[0] == 'call' and isinstance(x[1], str) and x[1] in ('core::num::checked_sub', 'core::num::saturating_sub') and len(x[2]) == 2:
+                a_, b_ = sym(x[2][0]), sym(x[2][1])
+                return ('call', x[1], (a_, b_)) if a_ is not None and b_ is not None else None
+            if x[0] == 'bin' and x[1] in ('Sub', 'Add'):
+                a_, b_ = sym(x[2]), sym(x[3])
+                return ('bin', x[1], a_, b_) if a_ is not None and b_ is not None else None
+            if x[0] == 'const':
+                return x
+            return None
+        for f_ in fields:
+            n_ = f_['name']
+            if n_ in (self.f_inner, self.f_le, self.f_written, self.f_cap) or n_ not in self.ctor:
+                continue
+            if f_['ty'].replace(' ', '') in ('usize', 'core::option::Option<usize>'):
+                eq = sym(self.ctor[n_])
+                if eq is not None:
+                    self.derived[n_] = eq
         # inlined write (flush spliced)
         self.wbody = inl(cad, self.write)
         self.T = Terms(self.wbody)
@@ -69,6 +106,8 @@ class WriterModel:
     def atom(self, t):
         """Named quantities of the proof: W, C, N, E."""
         t = norm(t)
+        if t[0] == 'sym':
+            return t[1]
         if t[0] == 'load':
             if t[2] != 'entry':
                 return None
@@ -94,6 +133,23 @@ class WriterModel:
         (assumed at entry of the step, re-established by M2/M5/M8/M9): rewrite so that the guard stays linear."""
         if not isinstance(t, tuple) or not t:
             return t
+        if getattr(self, 'derived', None):
+            # a read of a derived constant field -> its constructor equation
+            x = t
+            if x[0] == 'load' and x[2] == 'entry':
+                x = x[1]
+            if x[0] == 'field' and x[2] in self.derived and peel(x[1]) == ('param', 1) and x[1][0] in ('deref', 'param'):
+                return self.desat(self.derived[x[2]])
+            if t[0] == 'discr':
+                return ('discr', self.desat(t[1]))
+            if t[0] == 'payload':
+                return ('payload', self.desat(t[1]), t[2])
+            if t[0] == 'field' and t[1][0] == 'payload':
+                inner = self.desat(t[1])
+                c_ = inner[1]
+                if inner[2] == 'Some' and c_[0] == 'call' and c_[1] == 'core::num::checked_sub' and str(t[2]) == '0':
+                    return ('bin', 'Sub', c_[2][0], c_[2][1])      # Some(a - b)
+                return ('field', inner, t[2])
         if t[0] == 'call' and isinstance(t[1], str) and t[1].endswith('::saturating_sub') and len(t[2]) == 2:
             a, b = t[2]
             if self.atom(a) == 'C' and self.atom(b) == 'W':
@@ -150,6 +206,8 @@ def guard_lins(m, T, target, removed=()):
     lins, unk = [], []
     for dt, labels, bi in gs:
         dt = norm(dt)
+        if dt[0] == 'discr' and getattr(m, 'derived', None):
+            dt = m.desat(dt)
         if dt[0] == 'discr' and term_callee_is(dt[1], 'core::num::checked_sub') and len(dt[1][2]) == 2:
             # `a.checked_sub(b)`: Some exactly when a >= b (std), i.e. a guard written as a subtraction that may fail
             a_, b_ = dt[1][2]
@@ -623,7 +681,7 @@ def rule_M10(m, rep, rid='M10'):
             if callers and callers <= allowed:
                 allowed.add(x.path)
                 changed = True
-    roles = {m.f_written, m.f_cap, m.f_inner, m.f_le}
+    roles = {m.f_written, m.f_cap, m.f_inner, m.f_le} | set(getattr(m, 'derived', {}) or {})
     n = 0
     offenders = []
     for b in m.cad.all_bodies:
